@@ -8,7 +8,7 @@ LEVEL_TEXT = {
  "C01": "Held-on-observed: every generated event written through each backend is read back (listing + lookup) and compared exactly in integer microseconds / canonical JSON; every caller-side object is then mutated and all reads repeated. Exploration is the right level: the quantifier is over ~10^15 instants x arbitrary JSON, reach comes from the generators' deliberate mass on float breakpoints, sub-ms parts and offsets.",
  "C02": "Held-on-observed: a dict model is stepped in lock-step with the real store and the WHOLE observable state of every bucket is compared after every operation of generated hostile histories (ties, nesting, zero-length, delete/upsert interleavings) on all three backends.",
  "C03": "Held-on-observed: every windowed read and count is judged against must/may sets computed in integer microseconds with the statement's own 2 ms edge tolerance; edges are placed on, 1 us, 1 ms and 3 ms around event edges on purpose.",
- "C04": "Held-on-observed: frame condition checked around every single operation (full dump of all other buckets before/after), with ids taken from other buckets and instants that coincide across buckets.",
+ "C04": "Held-on-observed: frame condition checked around every single operation (full dump of all other buckets before/after), with ids taken from other buckets (integer and string form), creates of buckets that exist, and instants that coincide across buckets.",
  "C05": "Held-on-observed: dict model of the bucket map stepped with generated lifecycle histories incl. operations on missing ids and delete/re-create cycles, store reopened mid-history, the caller editing the dicts it passed in and was handed; listing, metadata and event content compared after every step.",
  "C06": "Fault enumeration: the committed state is read through a second read-only connection at EVERY SQL statement boundary and operation return of each generated history (= every process-death point between statements), and real child processes are SIGKILLed / _exit / exit at chosen statements and the reopened file judged the same way. Prefix, no-split, monotonicity, durability-on-return and the <=64 lost-writes bound are decided per crash point.",
  "C07": "Held-on-observed: after every heartbeat of generated streams fed through the standard loop, the bucket is compared with heartbeat_reduce of the prefix (real transform and integer reference) and the neighbouring buckets with their initial dump.",
